@@ -104,5 +104,10 @@ claim("C19", "rapid-prop",
       "A history is run on an emitter whose capacity ends exactly at, or 1-3 bytes inside, a drawn instruction or data block (also 0 and full size): each call must be accepted iff it fits, a refused call must leave bytes, length, PC and labels untouched (and must not leave a dangling reference behind: Finalize is checked afterwards), Len <= Cap always. The same history on NewEmitter(nil, ...) must report the same PC, label addresses and flags after every call as a buffered emitter, with Len()==0.",
       "Trusted: harness/asmcat capacity rule (accepted iff len+need <= cap).",
       "DESIGN.md section 3 C19")
+claim("C18", "race-rig",
+      "metamorphic property test (rapid): sequential versus concurrent digests of seed-determined workloads, under the Go race detector",
+      "Each round draws 14-32 workloads (every kind at least twice: emulator.System with logger, System with the real memory map, cpu65c816, cpualt, emitter with listings/Clone/Finalize, ROM header and bus readers/writers, mapper and colour functions), runs them one after another on fresh instances, then all at once on goroutines released together in a -race binary; every digest must be unchanged and any race report is a violation (the round is saved before it runs and named as the replay). This is the weak one: the harness does not own the scheduler, so only interleavings that occurred are covered; the race detector's happens-before analysis flags conflicting accesses regardless of exact timing, but a write to shared state on a path no workload takes stays hidden.",
+      "Trusted: the Go race detector; workloads avoid observables that are order-dependent even sequentially (which failing label Finalize names).",
+      "DESIGN.md section 3 C18")
 for e in ENGINES:
     e["serves_properties"] = sorted(k for k, v in CLAIMED.items() if v["engine"] == e["name"])
